@@ -4,6 +4,8 @@ import json, subprocess
 
 TECH = "bounded symbolic execution of the real go/ssa of /repo (symgo) + SMT (z3/cvc5, QF_ABV+UF); counterexamples replayed natively"
 NOTES = {
+ "C18": " C18 specifically: only the ROS 1 bag half is decided; the ROS 2 db3 half (database/sql, cgo SQLite, file system) cannot be encoded and is not claimed.",
+ "C19": " C19 specifically: definition texts are generated from symbolic selectors (solver case split), not arbitrary bytes; the regexp is executed natively on concrete lines.",
  "C13": " C13 specifically: only the map-order clause is decided; the schedule/CPU/concurrency clause is outside what this technique can reach and is not claimed.",
 }
 NOTE = ("trusted: go/packages+go/ssa lowering (x/tools v0.29.0), the symgo interpreter and its stubs (DESIGN.md §2.5: fmt/errors opaque, crc32 uninterpreted fold, "
@@ -27,6 +29,8 @@ CHECKS = {
  "C06": ("with the CRC as an uninterpreted fold, the stored data-section, summary, chunk and attachment checksums are shown equal to the fold over exactly the byte ranges the specification defines (and zero / still-correct when disabled) for every field value on the enumerated templates; any difference in which bytes are fed is a solver counterexample replayed with the real CRC-32", "DESIGN.md §4 C06"),
  "C11": ("files produced by a specification-only encoder with a record of symbolic unknown opcode (0x10..0xFF) and symbolic body inserted at each of 8 legal position classes, and with symbolic extra bytes appended to every extensible record (offsets recomputed), are shown to be read by the lexer, the non-indexed iterator, Info, index-entry access and Messages() in three orders as exactly the logical content, for every value of content, opcode and inserted bytes", "DESIGN.md §4 C11"),
  "C12": ("the same logical content (all values symbolic) laid out by a specification-only encoder under the enumerated layouts - chunk partitions, none/xor per chunk, schema/channel placement and repetition, 12 orders of the summary groups, each optional part present or absent - is shown to be returned identically by lexer, non-indexed iterator, Info, index-entry access and Messages() in three orders; every encoder output is itself validated by the specification decoder", "DESIGN.md §4 C12"),
+ "C18": ("ROS 1 BAG HALF ONLY: for bags built by a harness-side encoder with symbolic connection ids, topics, types, definitions, times and payloads the real Bag2MCAP output, decoded by the real lexer, is shown to hold one message per bag message in order with the same bytes, log = publish = secs*1e9+nsecs, sequence numbers 0,1,2.., channels carrying topic and header fields, one schema per distinct type/md5, and an error for connection ids above 65535; on arbitrary short inputs (and arbitrary header bytes inside a correctly framed record) Bag2MCAP and its header helpers are shown panic-free and exit-free. The db3 half is not decided (see level_note)", "DESIGN.md §4 C18"),
+ "C19": ("the array-suffix kernel is shown panic-free and equal to its specification for every string up to the stated length; ParseMessageDefinition is shown to return the expected field tree, or an error for missing types and reference cycles, without unbounded recursion, on all 1331 definitions generated by three symbolic type selectors over an 11-entry menu (with and without comments/constants)", "DESIGN.md §4 C19"),
 }
 
 NA = {
